@@ -278,6 +278,32 @@ def correspondence(ctx, violations, known_hits):
             violations.append({"kind": "complete-file-expected", "destination": dk, "source": "add r0 r0 #1\nhalt\n", "exit": p.returncode,
                                "stderr": p.stderr.decode("utf-8", "replace")[-300:], "destination_after": after.hex() if after is not None else None,
                                "directory_after": [x if len(x) < 60 else x[:20] + "... (%d characters)" % len(x) for x in left]})
+    # a symbolic link with a RELATIVE target, lying in another directory than the working directory (out/latest.lc3 -> build-1.lc3,
+    # run from the parent of out/): the file it names - out/build-1.lc3 - is what is written; with and without the fault
+    for fault in (False, True):
+        for exists in (True, False):
+            sub = os.path.join(d, "rellink-%d-%d" % (fault, exists)); os.makedirs(os.path.join(sub, "out"), exist_ok=True)
+            open(os.path.join(sub, "p.asm"), "w").write(big if fault else "add r0 r0 #1\nhalt\n")
+            target = os.path.join(sub, "out", "build-1.lc3")
+            if exists:
+                open(target, "wb").write(OLD)
+            os.symlink("build-1.lc3", os.path.join(sub, "out", "latest.lc3"))
+            p = subprocess.run([exe, "compile", "p.asm", os.path.join("out", "latest.lc3")], cwd=sub, stdout=subprocess.DEVNULL, stderr=subprocess.PIPE, stdin=subprocess.DEVNULL,
+                               env=dict(os.environ, NO_COLOR="1", RUST_BACKTRACE="0"), preexec_fn=(limited if fault else None), timeout=20)
+            after = open(target, "rb").read() if os.path.exists(target) else None
+            top, inner = sorted(os.listdir(sub)), sorted(os.listdir(os.path.join(sub, "out")))
+            ev += 1
+            sigs.add(("relative-link", fault, exists, p.returncode == 0))
+            if fault:
+                good = p.returncode != 0 and after == (OLD if exists else None) and top == ["out", "p.asm"] and inner == (["build-1.lc3", "latest.lc3"] if exists else ["latest.lc3"])
+            else:
+                good = p.returncode == 0 and after == bytes.fromhex("30001021f025") and top == ["out", "p.asm"] and inner == ["build-1.lc3", "latest.lc3"]
+            if not good:
+                nv += 1
+                violations.append({"kind": "relative-link-in-another-directory", "command_line": ["lace", "compile", "p.asm", "out/latest.lc3"], "link": "out/latest.lc3 -> build-1.lc3",
+                                   "target_existed": exists, "write_fault": fault, "exit": p.returncode, "stderr": p.stderr.decode("utf-8", "replace")[-200:],
+                                   "out/build-1.lc3_after": (after.hex()[:60] + " (%d bytes)" % len(after)) if after is not None else None,
+                                   "working_directory_after": top, "out_after": inner})
     ctx.cleanup()
     return {
         "evaluations": ev, "distinct_nontrivial": len(sigs),
